@@ -25,7 +25,7 @@ def upgradeLastFirst : List Label := [.c0_grow, .u1, .u2_last, .u3, .u4, .w1, .w
 /-- `cease_writing`, last writer, on exit -/
 def cwLast : List Label := [.y1, .y2, .y3_last, .y4, .y5]
 /-- `cease_reading`, last reader, on exit -/
-def crLast : List Label := [.rd_end, .x1, .x2_last, .x3, .x4]
+def crLast : List Label := [.use_r, .rd_end, .x1, .x2_last, .x3, .x4]
 
 /-- both threads pass the test `FFT_LEN >= 0` before either has stored 0 -/
 def bothPass : List Label := [.call, .i0_cold, .call, .i0_cold]
@@ -35,7 +35,7 @@ def bothPass : List Label := [.call, .i0_cold, .call, .i0_cold]
     so it does not wait for `w`), finds `len > 0`, upgrades — `w` is free because A itself re-created it — and passes the
     re-test: A re-allocates the tables while B reads them -/
 def f9Trace : List Label :=
-  bothPass ++ initSeq ++ brFirst ++ upgradeLastFirst ++ [.c1_pass 8, .store 8 true, .build 8] ++ cwLast ++
+  bothPass ++ initSeq ++ brFirst ++ upgradeLastFirst ++ [.c1_pass 8, .store 8 true, .use_w, .build 8] ++ cwLast ++
   [.call, .i0_warm] ++ brFirst ++ [.c0_ok] ++
   initSeq ++ brMore ++ [.c0_grow, .u1, .u2_more, .u4, .w1, .w2_first, .w3, .w4, .w5, .c1_pass 4]
 
@@ -74,7 +74,7 @@ def writerInTrace : List Label := [.call, .i0_warm] ++ brFirst ++ upgradeLastFir
 
 /-- … finishes; then two threads read concurrently -/
 def twoReadersTrace : List Label :=
-  writerInTrace ++ [.build 8] ++ cwLast ++ [.call, .i0_warm] ++ brFirst ++ [.c0_ok, .call, .i0_warm] ++ brMore ++ [.c0_ok]
+  writerInTrace ++ [.use_w, .build 8] ++ cwLast ++ [.call, .i0_warm] ++ brFirst ++ [.c0_ok, .call, .i0_warm] ++ brMore ++ [.c0_ok]
 
 /-- two threads both find `len > FFT_LEN = 0` as readers; the first rebuilds to 8; the second, once it holds the writer role,
     re-tests (say `len = 4`), fails, and downgrades -/
@@ -83,7 +83,7 @@ def downgradeTrace : List Label :=
    .u1, .u2_more, .u4, .u1, .u2_last, .u3, .u4,        -- both cease reading
    .w1, .w2_first, .w3, .w4, .w5,                       -- first becomes writer
    .w1, .w2_more, .w4,                                  -- second queues on w
-   .c1_pass 8, .store 8 true, .build 8, .y1, .y2, .y3_more, .y5,
+   .c1_pass 8, .store 8 true, .use_w, .build 8, .y1, .y2, .y3_more, .y5,
    .w5, .c1_fail]
 
 set_option maxRecDepth 100000 in
@@ -91,6 +91,13 @@ theorem writerIn_run : (run writerInTrace (warm 2)).map obs = some [0, 1, 1, 1, 
 
 set_option maxRecDepth 100000 in
 theorem twoReaders_run : (run twoReadersTrace (warm 3)).map obs = some [2, 0, 0, 1, 1, 8, 8] := by decide
+
+set_option maxRecDepth 100000 in
+/-- in the two-readers state both readers are at the point of use; in the writer-in state the writer is -/
+theorem twoReaders_at_use : (run twoReadersTrace (warm 3)).map (fun s => s.cnt .rd) = some 2 := by decide
+
+set_option maxRecDepth 100000 in
+theorem writerIn_at_use : (run writerInTrace (warm 2)).map (fun s => s.cnt .wt) = some 1 := by decide
 
 set_option maxRecDepth 100000 in
 theorem downgrade_run : (run downgradeTrace (warm 2)).map (fun s => (s.cnt .d1, s.flen)) = some (1, 8) := by decide
